@@ -23,6 +23,28 @@ pub(crate) fn rem(
     divisor_coeff: i128,
     divisor_n_frac_digits: u8,
 ) -> Result<(i128, u8), DecimalError> {
+    #[cfg(feature = "verif-hooks")]
+    {
+        use fpdec_core::verif;
+        let (p, q) = (divident_n_frac_digits, divisor_n_frac_digits);
+        verif::hit(match p.cmp(&q) {
+            Ordering::Equal => verif::REM_EQ,
+            Ordering::Greater => {
+                if checked_mul_pow_ten(divisor_coeff, p - q).is_some() {
+                    verif::REM_GT_FIT
+                } else {
+                    verif::REM_GT_OVF
+                }
+            }
+            Ordering::Less => {
+                if checked_mul_pow_ten(divident_coeff, q - p).is_some() {
+                    verif::REM_LT_FIT
+                } else {
+                    verif::REM_LT_STEP
+                }
+            }
+        });
+    }
     match divident_n_frac_digits.cmp(&divisor_n_frac_digits) {
         Ordering::Equal => {
             Ok((divident_coeff % divisor_coeff, divident_n_frac_digits))
@@ -52,6 +74,10 @@ pub(crate) fn rem(
                                 rem = shifted_rem % divisor_coeff;
                             }
                             None => {
+                                #[cfg(feature = "verif-hooks")]
+                                fpdec_core::verif::hit(
+                                    fpdec_core::verif::REM_LT_STEP_OVF,
+                                );
                                 return Err(DecimalError::InternalOverflow)
                             }
                         }
